@@ -38,6 +38,22 @@ def identity(x):
     return x
 
 
+def build_two_step(sdl, name, where, **kw):
+    """the documented advanced instantiation: Engine(...) then cook(...); `where` = "init" (everything given to the constructor) or "cook" (everything given to cook())"""
+    from tartiflette import Engine
+    kw.setdefault("json_loader", identity)
+
+    async def go():
+        if where == "init":
+            e = Engine(sdl, schema_name=name, **kw)
+            await e.cook()
+        else:
+            e = Engine()
+            await e.cook(sdl, schema_name=name, **kw)
+        return e
+    return asyncio.run(go())
+
+
 def build(sdl, name, **kw):
     """create_engine, concretely (never call under tracing with symbolic inputs)."""
     from tartiflette import create_engine
